@@ -296,7 +296,7 @@ class CloseHistories(Contract):
     bounded_scope = ("a project with plain objects and a drillhole group; 2-6 operations (create, add data, rename, edit values, remove, drillhole data, renames and data-flag edits whose persistence "
                      "is deferred to close, a redundant open(), fetch_active_workspace in either mode) followed by one of {explicit close, leaving the with-block, an exception "
                      "escaping the with-block after k operations}; on disk and in an in-memory buffer saved with save_as: the file is valid, its re-opened tree equals the live tree "
-                     "at the time of the close, the handle is released, a call needing the file raises the closed-file error, re-opening works; 15 fixed + 30 seeded (quick) / 400")
+                     "at the time of the close, the handle is released, a call needing the file raises the closed-file error, re-opening works; 20 fixed (five of them on a file whose Root link -- and for two also the root group's node -- was deleted, so that the session works on the rebuilt tree) + 30 seeded (quick) / 400")
 
     FIXED = [
         (["points", "data", "rename"], "close", "disk"),
@@ -314,6 +314,11 @@ class CloseHistories(Contract):
         (["hole_data_flags"], "close", "disk"),
         (["hole_data_flags", "hole_data_flags"], "with", "disk"),
         (["hole_data_flags"], "exception", "disk"),
+        (["rename", "values"], "close", "rootless"),
+        (["points", "rename", "data"], "with", "rootless"),
+        (["rename", "hole_rename"], "exception", "rootless"),
+        (["rename", "values"], "close", "rootless-no-root-group"),
+        (["points", "rename", "data", "hole_rename"], "with", "rootless-no-root-group"),
     ]
 
     def native_cases(self, tier, rng):
@@ -373,6 +378,18 @@ class CloseHistories(Contract):
             h.add_data({"base_log": {"depth": np.array([1.0, 2.0]), "values": np.arange(2.0)}})
         if not memory:
             ws.close()
+            if case["store"] in ("rootless", "rootless-no-root-group"):
+                # a file without its Root link (third-party or damaged): the tree is rebuilt from the flat containers;
+                # second variant: the root group's own node is absent too, every stored entity is then top-level
+                import h5py
+
+                with h5py.File(path, "r+") as f:
+                    proj = f[list(f)[0]]
+                    rid = proj["Root"].attrs["ID"]
+                    rid = rid.decode() if isinstance(rid, bytes) else str(rid)
+                    del proj["Root"]
+                    if case["store"] == "rootless-no-root-group":
+                        del proj["Groups"][rid]
             ws = Workspace(path, mode="r+")
         count = [0]
         snap = [None]
